@@ -347,6 +347,16 @@ theorem delivery_needs_message_signed_for_this_overlay_and_id (G : Progs) (hG : 
   · have := List.find?_some hf
     simpa using this
 
+/-- **liveness credit ignores what the datagram says** — `on_packet` refreshes `last_response` of a "probable peer" for
+    every incoming datagram, before the prefix guard and before any signature check.  With the lookups translated from
+    the source (`Gen.livenessSources`), which stored Peer gets that credit does not depend on a single byte of the
+    datagram: nobody can keep a verified-peer entry of key `k` alive by NAMING `k`.  (The credit by transport address
+    itself — a spoofable source — is outside this property: seen, not judged.) -/
+theorem liveness_credit_ignores_datagram_content (netAddr : Option Bytes) (net : Bytes → Option Bytes)
+    (d d' : Bytes) :
+    livenessCredit Gen.livenessSources netAddr net d = livenessCredit Gen.livenessSources netAddr net d' := by
+  simp [Gen.livenessSources, livenessCredit]
+
 /-! ### histories: who can end up in verified_peers -/
 
 /-- **history_sound** — ONE key index shared by any number of overlays (one `Network` per IPv8 instance).  Start from
@@ -636,6 +646,15 @@ example : run { toyEnv with optimized := true } [.unpackAuth 23, .verify, .decod
     .touchPeer, .callPeer] (toyDatagram.set 27 8) = .called [5, 5] [8, 9] none := by decide +kernel
 example : run toyEnv [.unpackAuth 23, .verify, .decode .remainder 23, .assertDebug, .lookupPeer,
     .touchPeer, .callPeer] (toyDatagram.set 27 8) = .rejected .signature := by decide +kernel
+/-- a check weakened by a second condition (`if not signature_valid and <cond>: raise`) is not guarded: when the
+    condition is false the tampered datagram is delivered -/
+example : guarded [.unpackAuth 23, .verify, .decode .remainder 23, .assertWeakened, .lookupPeer, .touchPeer, .callPeer]
+    = false := by decide
+example : run { toyEnv with weakCond := false } [.unpackAuth 23, .verify, .decode .remainder 23, .assertWeakened,
+    .lookupPeer, .touchPeer, .callPeer] (toyDatagram.set 27 8) = .called [5, 5] [8, 9] none := by decide +kernel
+/-- a liveness lookup by the key the datagram names DOES depend on the datagram: two datagrams, two different credits -/
+example : livenessCredit [.sourceAddress, .datagramContent] none toyEnvKnown.net toyDatagram
+    ≠ livenessCredit [.sourceAddress, .datagramContent] none toyEnvKnown.net [] := by decide +kernel
 /-- a harmless reordering (lookup before the check, touch after it) stays guarded -/
 example : guarded [.unpackAuth 23, .lookupPeer, .verify, .assertValid, .decode .remainder 23, .touchPeer, .callPeer]
     = true := by decide
